@@ -28,7 +28,7 @@ RULE = ('Hypothesis-generated cleanup scenarios: a mapproxy.yaml (grid: global m
         '(remove_all / remove_before as ISO time, datetime, mtime-file, relative delta / default start time; '
         'levels as list, from-to range, resolution range or absent; full extent or coverage as bbox, WKT '
         'polygon(s), two coverages, other SRS) are loaded with the real loaders; the cache is filled through the '
-        'real backend with 4-28 tiles over 2-5 levels whose ages are clearly older / clearly newer / within '
+        'real backend with 8-28 tiles over 2-5 levels whose ages are clearly older / clearly newer / within '
         '+-1 s of T, bystanders (sibling cache, second grid of the same cache, single_color_tiles/, tile_locks/, '
         'unrelated files, decoy level directories) are planted, the real cleanup() runs and the remaining '
         'contents are compared with the specification; full-extent cases are re-run on identical contents with '
